@@ -96,7 +96,8 @@ def consumer_cases(rnd, vals, count):
             out.append({'kind': 'ops', 'a': A.aval(a), 'b': A.aval(b), 'eq': ev('==', a, b), 'ne': ev('!=', a, b), 'lt': ev('<', a, b),
                         'le': ev('<=', a, b), 'gt': ev('>', a, b), 'ge': ev('>=', a, b), 'cmp': sc(a, b)})
         elif k < 0.5:
-            arr = [copy.deepcopy(rnd.choice(vals)) for _ in range(rnd.randint(0, 9))]
+            src = vals[:14] if rnd.random() < 0.4 else vals
+            arr = [copy.deepcopy(rnd.choice(src)) for _ in range(rnd.randint(0, 9))]
             inp = [A.aval(x) for x in arr]
             res = SF['arraySort']([arr], None)
             out.append({'kind': 'sorted', 'inp': inp, 'out': [A.aval(x) for x in res]})
@@ -111,7 +112,8 @@ def consumer_cases(rnd, vals, count):
             out.append({'kind': 'datasort', 'inp': inp, 'out': [A.aval(r) for r in res], 'perm': [ids.get(id(r), 0) for r in res],
                         'fields': [{'name': A.cps(f), 'desc': d} for f, d in spec]})
         elif k < 0.85:
-            args = [rnd.choice(vals) for _ in range(rnd.randint(0, 6))]
+            src = vals[:14] if rnd.random() < 0.6 else vals
+            args = [rnd.choice(src) for _ in range(rnd.randint(0, 6))]
             which = rnd.choice(['min', 'max'])
             res = SF['mathMin' if which == 'min' else 'mathMax'](list(args), None)
             out.append({'kind': 'minmax', 'which': which, 'args': [A.aval(x) for x in args], 'out': A.aval(res)})
